@@ -321,6 +321,16 @@ Proof.
   intros table H a p m routes Hin. rewrite forallb_forall in H. apply cfg_ok_sound with (a := a). apply H. exact Hin.
 Qed.
 
+(* The verdict for a request is a function of (use_auth, admin token, table, route class, its own header): the other
+   authentications that are in flight or were made before - over HTTP or the websocket, with whatever tokens, valid
+   or not - take no part in it (they leave the table as it is, Tokens.auths_do_not_interfere). *)
+Theorem verdict_independent_of_other_requests : forall use_auth admin others st wrapped hdr,
+  forallb is_auth others = true ->
+  decide use_auth admin (run admin st others) wrapped hdr = decide use_auth admin st wrapped hdr.
+Proof.
+  intros use_auth admin others st wrapped hdr H. rewrite (auths_do_not_interfere admin others st H). reflexivity.
+Qed.
+
 (* ---------------- Examples ---------------- *)
 
 Example ex_split : split_sp "Bearer  a b " = ["Bearer"; ""; "a"; "b"; ""] /\ split_sp "" = [""].
